@@ -275,7 +275,7 @@ def input_forms(chk, rng):
              ("Polyhedron", lambda v: S.Polyhedron(v, faces), boxv, "volume")]
     for name, mk, Vint, meas in ctors:
         ref = mk(Vint.astype(float))
-        for form, arg in (("integer array", Vint.copy()), ("nested lists", Vint.astype(float).tolist()), ("integer nested lists", Vint.tolist()),
+        for form, arg in (("float64 array", Vint.astype(np.float64)), ("integer array", Vint.copy()), ("nested lists", Vint.astype(float).tolist()), ("integer nested lists", Vint.tolist()),
                           ("tuple of tuples", tuple(map(tuple, Vint.astype(float).tolist())))):
             keep = arg.copy() if isinstance(arg, np.ndarray) else [list(r) for r in arg]
             st, sh = C.excname(mk, arg)
@@ -295,6 +295,12 @@ def input_forms(chk, rng):
                 sh.centroid = np.asarray(sh.centroid, float) + 1.0
                 if not np.array_equal(arg, keep):
                     chk.violation("caller-array-stored", dict(desc, what="moving the shape changed the array passed to the constructor"))
+                # ... and the other way round: the caller re-using its buffer must not move the shape
+                before = np.asarray(sh.vertices, float).copy()
+                if arg.dtype.kind == "f":
+                    arg += 7.0
+                    if not np.array_equal(np.asarray(sh.vertices, float), before):
+                        chk.violation("caller-array-stored", dict(desc, what="changing the array passed to the constructor afterwards moved the shape"))
 
 
 def extra_coverage(chk):
